@@ -48,7 +48,7 @@ def case(draw):
     ops = []
     for i in range(draw(st.integers(1, 6))):
         src = draw(st.sampled_from(roles))
-        place = draw(st.sampled_from(['global', 'other', 'term', 'same', 'cashflow', 'global', 'other', 'term']))
+        place = draw(st.sampled_from(['global', 'other', 'term', 'same', 'cashflow', 'global', 'other', 'term', 'ext']))
         dst = draw(st.sampled_from(roles)) if place in ('other', 'term', 'cashflow') else src
         ops.append({'src': src, 'var_pick': draw(st.integers(0, 30)), 'place': place, 'dst': dst,
                     # (with the external sector created last of all, the country count changes after the hooks: names
@@ -107,7 +107,11 @@ def run(case_):
                 var = vars_[o['var_pick'] % len(vars_)]
                 name = src.GetVariableName(var)
                 text = o['form'] % name
-                if o['place'] == 'global':
+                if o['place'] == 'ext' and mod.ExternalSector is not None:
+                    # a user-written rule inside the external sector's own blocks (a managed exchange rate, say)
+                    blk = ['XR', 'FX', 'XR'][i % 3]
+                    mod.ExternalSector[blk].AddVariable('EMB%d' % i, 'embedded name in an external-sector block', text)
+                elif o['place'] in ('global', 'ext'):
                     mod.AddGlobalEquation('GLOB%d' % i, 'embedded name', text)
                     requests.append((None, 'GLOB%d' % i, tuple(o['src']), var, phase))
                 elif o['place'] in ('term', 'cashflow'):
